@@ -3,6 +3,7 @@ import PyxisVerif.Lemmas.C09
 import PyxisVerif.Lemmas.C19
 import PyxisVerif.Props.C19Frame
 import PyxisVerif.Props.C19FrameVft
+import PyxisVerif.Props.C19Change
 /-!
 # C19 – a module's bindings do not depend on unrelated definitions
 
